@@ -600,7 +600,12 @@ def WM.applyPack (w : WM) (pack : List Cmd) : WM × List Cb :=
       let (w, p, cbs) := body.foldl step (w, { final := initial }, [])
       if p.dead then (w, cbs) else
       let supplied := Mask.ofList (p.src.map (·.1))
-      let (w, ti) := w.getArch p.final sh
+      -- an existing entity whose component set did not change stays where it is: no archetype lookup (its archetype
+      -- may predate a dependency declaration, and the closed set would then name a different archetype)
+      let stay : Option Nat := if isCreate || !(initial == p.final) then none else (w.locOf e).arch
+      let (w, ti) := match stay with
+        | some pi => (w, pi)
+        | none => w.getArch p.final sh
       let moved : WM × List Cb :=
         if isCreate then w.archInsert info ti e supplied
         else
